@@ -32,5 +32,9 @@ func (c *channel) Request(req transport.HTTPRequest) (transport.HTTPResponse, er
 }
 
 func NewHTTPChannel(url *url.URL) transport.Channel {
-	return &channel{url: url, client: &http.Client{}}
+	// A redirect is a non-200 reply like any other: it is reported to the caller
+	// with its status, not followed (following would re-send the signed request
+	// elsewhere, or turn the POST into a GET, and report the outcome as success).
+	noFollow := func(*http.Request, []*http.Request) error { return http.ErrUseLastResponse }
+	return &channel{url: url, client: &http.Client{CheckRedirect: noFollow}}
 }
